@@ -28,7 +28,7 @@ def scratch(name):
     dst = os.path.join(SCR, name)
     os.makedirs(SCR, exist_ok=True)
     subprocess.check_call(["rsync", "-a", "--delete", "--exclude", "/target", "--exclude", "/.git", "--exclude", "/wal_files",
-                           "--exclude", "/figures", "--exclude", "*/target/", REPO + "/", dst + "/"])
+                           "--exclude", "/figures", "--exclude", "*/target/", "--exclude", "/rocksdb_benchmark_db", "--exclude", "*.csv", "--exclude", "/benchmarks", REPO + "/", dst + "/"])
     return dst
 
 
@@ -39,7 +39,7 @@ def drop(name):
 
 def mkdiff(name, prop, mut):
     src = os.path.join(SCR, name)
-    p = subprocess.run(["diff", "-ruN", "--exclude=target", "--exclude=.git", "--exclude=wal_files", "--exclude=figures", REPO, src],
+    p = subprocess.run(["diff", "-ruN", "--exclude=target", "--exclude=.git", "--exclude=wal_files", "--exclude=figures", "--exclude=rocksdb_benchmark_db", "--exclude=*.csv", "--exclude=benchmarks", REPO, src],
                        stdout=subprocess.PIPE, text=True)
     out = p.stdout.replace(src + "/", "b/").replace(REPO + "/", "a/")
     out = re.sub(r"^diff -ruN .*\n", "", out, flags=re.M)
